@@ -46,8 +46,8 @@ def with_gcc(jobs, share=0.25):
     (`new T{x}` vs `new T(x)`) turned out to change behaviour under g++ only (CWG 2137)."""
     out = list(jobs)
     for j in jobs:
-        if j["params"].get("races") or j.get("cxx"):
-            continue
+        if j["name"].endswith(".hb") or j.get("cxx"):
+            continue  # (C07's own jobs do get a twin: the race detector then sees g++'s instrumentation)
         t = {k: (dict(v) if isinstance(v, dict) else v) for k, v in j.items()}
         t["name"] = j["name"] + ".gcc"
         t["cxx"] = "g++"
